@@ -294,6 +294,19 @@ class Prog:
                 return a
         return self.arr(n, c)
 
+    def balance(self, us, vs):
+        """badly scaled dyads: one factor tiny, the other huge, product O(1) (e.g. a normalised mode shape times a force in N);
+        only in the unforced dtype mode and only for floating-point vectors"""
+        if self.force != "xxx":
+            return
+        for i in range(len(us)):
+            if self.rng.random() < 0.08 and us[i].dtype.kind in "fc" and vs[i].dtype.kind in "fc":
+                k = float(10.0 ** self.rng.integers(6, 13))
+                if self.rng.random() < 0.5:
+                    us[i], vs[i] = us[i] / k, vs[i] * k
+                else:
+                    us[i], vs[i] = us[i] * k, vs[i] / k
+
     def operand(self, shape):
         return self.arr(shape, self.cflag("o"))
 
@@ -449,6 +462,7 @@ class Prog:
             k = int(rng.integers(0, 5))
         us = [self.vec(n, "u") for _ in range(k)]
         vs = [self.vec(m, "v") for _ in range(k)]
+        self.balance(us, vs)
         variants = ["list", "tuple", "keyword", "incremental", "block"]
         if k >= 1:
             variants.append("list_noshape")
@@ -625,6 +639,7 @@ class Prog:
         k = int(self.rng.integers(0, 3))
         us = [self.vec(n, "u") for _ in range(k)]
         vs = [self.vec(m, "v") for _ in range(k)]
+        self.balance(us, vs)
         f = None if self.rng.random() < 0.4 else float(self.rng.standard_normal())
         M, A = r.M, r.A
         for u, v in zip(us, vs):
